@@ -20,9 +20,7 @@ private theorem coerceInt_sound {reg : Reg} {n : String} (hn : reg.get? n = some
   repeat' split at h
   all_goals first
     | (obtain ⟨rfl, hr⟩ := rangeChecked_ok h
-       first
-         | exact ⟨.intBool hn, rfl⟩
-         | exact ⟨.int hn hr, rfl⟩)
+       exact ⟨.int hn hr, rfl⟩)
     | cases h
 
 private theorem coerceFloat_sound {reg : Reg} {n : String} (hn : reg.get? n = some .float) {v : JV} {pv : PV}
